@@ -51,6 +51,21 @@ CLAIMS = {
         note="the hypotheses 'key comparison = structural equality' and 'Equal => same hash' are C02/C04's theorems, cited as hypotheses",
         technique="Lean 4 proof (invariant over call sequences) + call-sequence differential correspondence",
         engine="lean-model + t1-behaviour", ref="DESIGN.md §6 C18"),
+    "C13": dict(
+        text="Lean theorems about loop-shaped models of the emitted sort/keys/min/max: sort (over any sorter meeting the stated contract; insertion and merge sort proved to meet it) returns a permutation that is sorted under the derived comparison; keys returns every key exactly once for any iteration order; min/max return an element of the list that no other element precedes/follows, the default for an empty list; the two-value forms return one of their arguments accordingly. Tied by op-by-op correspondence on lists/maps over 18-35 element types (named basics, bool/complex, structs, pointers, slices) incl. duplicates, sorted/reversed, nil elements.",
+        note="sort.Slice/Strings/Ints/Float64s are the sorter parameter with its contract; Compare's total-order laws are C03's theorems, taken as hypotheses",
+        technique="Lean 4 proof (loop invariants over lists) + differential correspondence",
+        engine="lean-model + t1-behaviour", ref="DESIGN.md §6 C13"),
+    "C14": dict(
+        text="Lean theorems about the emitted loops (index variables, in-place compaction, early returns) of contains/unique/set/union/intersect/filter/takewhile/all/any with predicates as logging oracles: results equal the textbook definitions and the predicate log is the specified prefix in order; the hash-bucket unique keeps first occurrences given Equal => same hash (needed: refuted otherwise by a witness). Tied by op-by-op correspondence incl. call logs and the input as observed after in-place calls, over comparable and non-comparable element types, Equal-but-not-identical elements, nil/empty lists, +0/-0 keys.",
+        note="Equal = structEq and Equal => same hash are C02/C04's theorems, taken as hypotheses",
+        technique="Lean 4 proof (loop invariants with call logs) + differential correspondence",
+        engine="lean-model + t1-behaviour", ref="DESIGN.md §6 C14"),
+    "C17": dict(
+        text="Lean theorems: fmap over a slice = List.map with one call per element in order and the same length; over a string the same for its runes for EVERY byte string (Go's range decoder is modelled: invalid encodings yield U+FFFD width 1) ; join of slices = flatten (nil for nil), join of strings = concatenation. Tied by op-by-op correspondence (results, call log, input re-observed) over 36 (element, result) type pairs and strings with 2-4 byte runes, boundary code points, truncated/overlong/surrogate/invalid encodings — which also validates the UTF-8 decoder model against the Go runtime.",
+        note="Go's UTF-8 range semantics are modelled and validated by the tie, not proved from the runtime's source",
+        technique="Lean 4 proof + differential correspondence",
+        engine="lean-model + t1-behaviour", ref="DESIGN.md §6 C17"),
 }
 
 OTHER = {
